@@ -14,10 +14,10 @@ var Plans = map[string][]PlanItem{
 	"C08": {{Scen: "dictionary", Quick: 8000, Thorough: 500000}},
 	"C18": {{Scen: "dmt", Quick: 8000, Thorough: 500000}, {Scen: "lifecycle", Quick: 800, Thorough: 60000}},
 	"C13": {{Scen: "reuse", Quick: 6000, Thorough: 400000}, {Scen: "docvalues", Quick: 1500, Thorough: 100000}},
-	"C15": {{Scen: "immutability", Quick: 2000, Thorough: 200000}, {Scen: "lifecycle", Quick: 800, Thorough: 60000}},
+	"C15": {{Scen: "immutability", Quick: 2000, Thorough: 200000}, {Scen: "lifecycle", Quick: 800, Thorough: 60000}, {Scen: "persist-fault", Quick: 40, Thorough: 2000}, {Scen: "read-fault", Quick: 120, Thorough: 6000}},
 	"C17": {{Scen: "tree", Quick: 3000, Thorough: 200000}},
-	"C12": {{Scen: "persist-fault", Quick: 160, Thorough: 12000}, {Scen: "lifecycle", Quick: 800, Thorough: 60000}},
-	"C19": {{Scen: "read-fault", Quick: 640, Thorough: 40000}, {Scen: "read-fault-large", Quick: 160, Thorough: 12000}},
+	"C12": {{Scen: "persist-fault", Quick: 160, Thorough: 12000}, {Scen: "lifecycle", Quick: 800, Thorough: 60000}, {Scen: "merge-read-fault", Quick: 120, Thorough: 8000}},
+	"C19": {{Scen: "read-fault", Quick: 640, Thorough: 40000}, {Scen: "read-fault-large", Quick: 160, Thorough: 12000}, {Scen: "merge-read-fault", Quick: 120, Thorough: 8000}},
 	"C09": {{Scen: "concurrent", Quick: 3600, Thorough: 300000}},
 	"C14": {{Scen: "build-history", Quick: 2500, Thorough: 150000}},
 	"C10": {{Scen: "interop", Quick: 2500, Thorough: 150000}, {Scen: "golden", Quick: 400, Thorough: 2000}},
